@@ -1477,7 +1477,9 @@ struct array : static_array<T, D, Alloc> {
 			adl_alloc_uninitialized_value_construct_n(this->alloc(), tmp.data_elements(), tmp.num_elements());
 		}
 		auto const is = intersection(this->extensions(), tmp.extensions());  // tmp's extensions collapse to empty when any requested extent is empty
-		tmp.apply(is) = this->apply(is);  // TODO(correaa) : use (and implement) `.move();`
+		if(is.num_elements() != 0) {  // nothing to carry over when old and new extensions have no index in common (and *this may have no storage to slice)
+			tmp.apply(is).elements() = this->apply(is).elements();  // the two slices have equal sizes but each keeps the index bases of its own array
+		}
 		this->destroy();
 		this->deallocate();
 		this->base_            = tmp.base();
@@ -1508,7 +1510,9 @@ struct array : static_array<T, D, Alloc> {
 		);
 		this->uninitialized_fill_n(tmp.data_elements(), static_cast<typename multi::allocator_traits<typename array::allocator_type>::size_type>(tmp.num_elements()), elem);
 		auto const is = intersection(this->extensions(), tmp.extensions());  // tmp's extensions collapse to empty when any requested extent is empty
-		tmp.apply(is) = this->apply(is);
+		if(is.num_elements() != 0) {  // nothing to carry over when old and new extensions have no index in common (and *this may have no storage to slice)
+			tmp.apply(is).elements() = this->apply(is).elements();  // the two slices have equal sizes but each keeps the index bases of its own array
+		}
 		this->destroy();
 		this->deallocate();
 		this->base_            = tmp.base();  // TODO(correaa) : use (and implement) `.move();`
